@@ -9,9 +9,10 @@
  * (ptg_case_ndata elements of PTG_RT_ELT_BYTES bytes, all on rank 0), runs the
  * generated taskpool and prints the body log, sorted:
  *
- *   I <class> <again:0|1> P <params…> ; L <locals…> ; S <begin> <end> ; R <flow>=<v>… ; W <flow>=<v>… ; K <key> ; KP <key_print string>
+ *   I <class> <again:0|1> P <params…> ; L <locals…> ; S <begin> <end> ; R <flow>=<v>… ; W <flow>=<v>… ; K <key> ; PR <priority> ; KP <key_print string>
  *
- * one line per body invocation, then "NBTASKS <n>" (what the taskpool announced to
+ * one line per body invocation, then (generated file compiled with -DPTG_RT_TRACE_STARTUP) "SU <class> P <params>"
+ * for every startup task in creation order, then "NBTASKS <n>" (what the taskpool announced to
  * termination detection just after startup is not observable afterwards; we print
  * the number of logged completed invocations instead), then the final content of
  * the collection "D <v0> <v1> …" and "END rc=0".  K/KP are computed after the run
@@ -39,6 +40,7 @@ typedef struct {
     int32_t  locals[MAX_LOCAL_COUNT];
     int64_t  begin, end;
     int      again;
+    int32_t  prio;           /* task->priority at this invocation (C16: demotion on AGAIN) */
     uint32_t rmask, wmask;
     int64_t  rd[PTG_RT_MAXFLOWS], wr[PTG_RT_MAXFLOWS];
 } ptg_entry_t;
@@ -95,6 +97,7 @@ int ptg_rt_begin(parsec_task_t *t) {
     e->tc = t->task_class;
     for (int i = 0; i < t->task_class->nb_locals && i < MAX_LOCAL_COUNT; i++) e->locals[i] = t->locals[i].value;
     e->rmask = e->wmask = 0;
+    e->prio = t->priority;
     e->end = -1;
     e->begin = parsec_atomic_fetch_inc_int64(&ptg_clock);
     e->again = ptg_again_decide(t->task_class, e->locals);
@@ -124,6 +127,17 @@ void ptg_rt_write(parsec_task_t *t, int flow, void *ptr) {
     *(int64_t *)ptr = v;
     ptg_cur->wmask |= 1u << flow;
     ptg_cur->wr[flow] = v;
+}
+
+/* C16: startup tasks in creation order (see PTG_RT_TRACE_STARTUP in ptg_rt.h) */
+typedef struct { const parsec_task_class_t *tc; int32_t locals[MAX_LOCAL_COUNT]; } ptg_su_t;
+static ptg_su_t ptg_su[PTG_MAXLOG];
+static volatile int32_t ptg_nsu = 0;
+void ptg_rt_startup_mark(parsec_task_t *t) {
+    int32_t idx = parsec_atomic_fetch_inc_int32(&ptg_nsu);
+    if (idx >= PTG_MAXLOG) return;
+    ptg_su[idx].tc = t->task_class;
+    for (int i = 0; i < t->task_class->nb_locals && i < MAX_LOCAL_COUNT; i++) ptg_su[idx].locals[i] = t->locals[i].value;
 }
 
 static parsec_datatype_t ptg_elt_dtt;
@@ -208,7 +222,7 @@ static int run_config(int cores, int pargc, char **pargv, int reps) {
     parsec_taskpool_t *tp = NULL;
     for (int r = 0; r < reps; r++) {          /* reps > 1: the same program several times in one context (only the last log is kept) */
         if (tp) ptg_case_free(tp);
-        ptg_nlog = 0; ptg_clock = 0; ptg_again_n = 0;
+        ptg_nlog = 0; ptg_clock = 0; ptg_again_n = 0; ptg_nsu = 0;
         tp = ptg_case_new(&dc->super);
         if (!tp) { printf("END rc=new-failed\n"); return 3; }
         rc = parsec_context_add_taskpool(ctx, tp);
@@ -242,8 +256,14 @@ static int run_config(int cores, int pargc, char **pargv, int reps) {
         parsec_key_t key = tc2->make_key(tp, as);
         buf[0] = 0;
         tc2->key_functions->key_print(buf, sizeof(buf), key, tp);
-        printf(" ; K %" PRIu64 " ; KP %s\n", (uint64_t)key, buf);
+        printf(" ; K %" PRIu64 " ; PR %d ; KP %s\n", (uint64_t)key, (int)e->prio, buf);
         if (!e->again) completed++;
+    }
+    for (int k = 0; k < ptg_nsu && k < PTG_MAXLOG; k++) {      /* creation order of the startup tasks (only with PTG_RT_TRACE_STARTUP) */
+        const parsec_task_class_t *tc = ptg_su[k].tc;
+        printf("SU %s P", tc->name);
+        for (int i = 0; i < tc->nb_parameters; i++) printf(" %d", ptg_su[k].locals[tc->params[i]->context_index]);
+        printf("\n");
     }
     printf("NBTASKS %d\n", completed);
     printf("D");
